@@ -45,6 +45,9 @@ func (r *BasicPublicTokenRequest) Marshal() []byte {
 }
 
 func (r *BasicPublicTokenRequest) Unmarshal(data []byte) bool {
+	// Drop the cached encoding: it describes the previous value of r.
+	r.raw = nil
+
 	s := cryptobyte.String(data)
 
 	var tokenType uint16
